@@ -514,7 +514,8 @@ def _prim_tabulate(ctx) -> None:
     funcs = {st.name: st for st in m.top() if isinstance(st, ast.FunctionDef)}
     import math
     glob = {**funcs, "$globals": {**consts, "math": minieval.Stub(floor=math.floor), "ValueError": ValueError}}
-    years = list(range(1, 2801)) + [9999]
+    deep = ctx.tier == "thorough"
+    years = list(range(1, 10000)) if deep else list(range(1, 2801)) + [9999]
 
     def tab(name, cases, want, show):
         if name not in funcs:
@@ -541,8 +542,10 @@ def _prim_tabulate(ctx) -> None:
     tab("days_in_year", [(y,) for y in years], lambda y: 366 if calendar.isleap(y) else 365, lambda a: f"days_in_year({a[0]})")
     tab("is_long_year", [(y,) for y in years], lambda y: _dt.date(y, 12, 28).isocalendar()[1] == 53, lambda a: f"is_long_year({a[0]})")
     wd_cases = [(y, mo, d) for y in list(range(1, 2801, 7)) + [9999] for mo in range(1, 13) for d in (1, 28, calendar.monthrange(y, mo)[1])]
-    for y in (1999, 2000, 2001, 2024):
+    for y in (range(1900, 2101) if deep else (1999, 2000, 2001, 2024)):
         wd_cases += [(y, mo, d) for mo in range(1, 13) for d in range(1, calendar.monthrange(y, mo)[1] + 1)]
+    if deep:
+        wd_cases += [(y, mo, 1) for y in range(1, 10000) for mo in (1, 2, 3, 12)]
     tab("week_day", wd_cases, lambda y, mo, d: _dt.date(y, mo, d).isoweekday(), lambda a: f"week_day{a}")
     EP = _dt.datetime(1970, 1, 1)
 
@@ -550,7 +553,7 @@ def _prim_tabulate(ctx) -> None:
         w = EP + _dt.timedelta(seconds=math.floor(t) + off)
         return (w.year, w.month, w.day, w.hour, w.minute, w.second, us)
     lt_cases = []
-    for y in list(range(1601, 2400, 13)) + [1969, 1970, 1971, 1999, 2000, 2001, 2004, 2100, 2101, 1900, 1901, 2399]:
+    for y in (list(range(1601, 2400)) if deep else list(range(1601, 2400, 13)) + [1969, 1970, 1971, 1999, 2000, 2001, 2004, 2100, 2101, 1900, 1901, 2399]):
         t0 = int((_dt.datetime(y, 1, 1) - EP).total_seconds())
         for dlt in (-1, 0, 1, 86399, 86400, 59 * 86400, 60 * 86400, 365 * 86400 - 1, 365 * 86400):
             lt_cases.append((t0 + dlt, 0, 5))
